@@ -267,6 +267,26 @@ def run_case(case, ctx):
                 if got2 is not None:
                     ctx.check("rel.explicit-eq-instance", _nan_equal(got2, getattr(_mk(fam, mixed), meth)(arg)), f"{fam}.{meth}: {k} positional None placeholder(s) and {last} by keyword != instance built with it", family=fam, parameter=last, method=meth, value=p[last], other=other)
 
+    # ---- a parameter value outside the admissible region (what an arbitrary dependence function may hand over): whatever
+    #      the family returns for it (0, nan), the scalar form and the array form return the same ----
+    if fam != "lnnf":
+        x_mid = float(np.asarray(x, float)[len(x) // 2])
+        for n in names:
+            if S.KIND[fam][n] != "pos":
+                continue
+            bad = -abs(float(other[n])) - 0.5
+            for meth, a0 in (("pdf", x_mid), ("cdf", x_mid), ("icdf", 0.4)):
+                try:
+                    with np.errstate(all="ignore"), warnings.catch_warnings():
+                        warnings.simplefilter("ignore")
+                        r_s = np.asarray(getattr(base, meth)(a0, **{n: bad}), float)
+                        r_v = np.asarray(getattr(base, meth)(np.array([a0, a0]), **{n: bad}), float)
+                except Exception as e:  # noqa: BLE001
+                    ctx.count(f"rel.inadmissible-parameter-rejected[{type(e).__name__}]")
+                    continue
+                same = r_v.shape == (2,) and r_s.ndim == 0 and bool((r_s == r_v[0]) or (np.isnan(r_s) and np.isnan(r_v[0])))
+                ctx.check("rel.forms", same, f"{fam}.{meth}: with an inadmissible {n} the scalar form and the array form return different values", family=fam, parameter=n, value=bad, scalar=float(r_s) if r_s.ndim == 0 else None, array=r_v[:1])
+
     # ---- an instance built with a FIXED parameter, evaluated with that parameter passed explicitly (what a conditional
     #      distribution does on every call): the explicit value is the one in force, as for a plain instance ----
     if fam != "lnnf":
